@@ -26,6 +26,8 @@ type profile struct {
 	PRouteErr float64        `json:"pRouteErr"`
 	PSendOk   float64        `json:"pSendOk"`
 	PSendErr  float64        `json:"pSendErr"`
+	PBusy     float64        `json:"pBusy"`  // probability that the COMMIT of a batch hits a locked database
+	PSendFull float64        `json:"pSendFull"`
 	PDelay    float64        `json:"pDelay"` // probability that a pending store submission is held back this step
 	MaxBatch  int            `json:"maxBatch"`
 	Promises  int            `json:"promises"`
@@ -402,6 +404,17 @@ func (d *driver) gen() *t_api.Request {
 			Id: d.promiseId(true), IdempotencyKey: d.key(), Strict: d.r.Intn(3) == 0, State: d.states(), Value: d.value()}}
 	case "CreateCallback":
 		leaf, root := d.promiseId(true), d.pick(d.pids)
+		if ts := d.table("tasks"); len(ts) > 0 && d.r.Intn(10) < 6 {
+			roots := []string{}
+			for _, id := range sortedKeys(ts) {
+				if t := ts[id].(M); t["state"] != "COMPLETED" && t["state"] != "TIMEDOUT" {
+					roots = append(roots, t["rootId"].(string))
+				}
+			}
+			if len(roots) > 0 {
+				root = d.pick(roots)
+			}
+		}
 		return &t_api.Request{Kind: t_api.CreateCallback, CreateCallback: &t_api.CreateCallbackRequest{
 			Id: "", PromiseId: leaf, RootPromiseId: root, Timeout: d.timeout(), Recv: d.recv()}}
 	case "CreateSubscription":
@@ -513,6 +526,8 @@ func (d *driver) aioRound(drain bool) error {
 			out = "ok"
 		} else if x < d.p.PSendOk+d.p.PSendErr {
 			out = "err"
+		} else if x < d.p.PSendOk+d.p.PSendErr+d.p.PSendFull {
+			out = "full"
 		}
 		w.send(s, out)
 	}
@@ -550,6 +565,8 @@ func (d *driver) aioRound(drain bool) error {
 				fail = "pre"
 			} else if x < d.p.PFailPre+d.p.PFailPost {
 				fail = "post"
+			} else if x < d.p.PFailPre+d.p.PFailPost+d.p.PBusy {
+				fail = "busy"
 			}
 		}
 		if err := w.exec(batch, fail); err != nil {
